@@ -26,6 +26,7 @@ NAMES = [1, 2, 3]
 OBSERVERS = [10, 11, 12, 13]
 METHS = [1, 2]
 IDENTS = ["a.b", "a.c", "x", "ab"]
+KILLABLE = 13
 PATS = ["a*", "*", "a.?", "x", "?b", "*c", "a.b"]
 
 
@@ -39,6 +40,9 @@ def _o(rng, xs, p_none=0.35):
 
 def gen_op(rng, alive, depth=0, in_script=False):
     obs = [o for o in OBSERVERS if o in alive]
+    if in_script:
+        # scripts run later: they never name the one observer that may be killed meanwhile
+        obs = [o for o in obs if o != KILLABLE]
     r = rng.random()
     if not obs:
         return ["post", rng.choice(NAMES), rng.choice(SENDERS), rng.randrange(3)]
@@ -70,9 +74,10 @@ def gen_op(rng, alive, depth=0, in_script=False):
         return ["areDisabled"] + scope
     if r < 0.96:
         return ["heldKeys"]
-    if r < 0.97 and not in_script and len(obs) > 1:
-        return ["kill", rng.choice(obs)]
-    if depth < 2:
+    if r < 0.97 and not in_script and KILLABLE in obs:
+        return ["kill", KILLABLE]
+    obs = [o for o in obs if o != KILLABLE]
+    if depth < 2 and obs:
         n = rng.randint(1, 3)
         return ["script", rng.choice(obs), rng.choice(METHS),
                 [gen_op(rng, alive, depth + 1, True) for _ in range(n)]]
